@@ -1279,6 +1279,151 @@ pub fn run_serde_ns(ctx: &mut Ctx, case: &Value) {
     }
 }
 
+// --------------------------------------------------------------------------- closed sessions (PurlSystem)
+
+fn slot(x: Option<Value>) -> Value {
+    match x {
+        Some(v) => json!({"some": true, "x": v}),
+        None => json!({"some": false}),
+    }
+}
+
+fn respell(m: &str, s: &str) -> String {
+    let rest = &s[4..];
+    match m {
+        "slashes" => format!("pkg://{}", rest),
+        "uppertype" => {
+            let i = rest.find('/').unwrap_or(rest.len());
+            format!("pkg:{}{}", rest[..i].to_ascii_uppercase(), &rest[i..])
+        },
+        _ => {
+            // lower-case the hex digits of every %XX
+            let b: Vec<char> = s.chars().collect();
+            let mut out = String::new();
+            let mut i = 0;
+            while i < b.len() {
+                if b[i] == '%' && i + 2 < b.len() {
+                    out.push('%');
+                    out.push(b[i + 1].to_ascii_lowercase());
+                    out.push(b[i + 2].to_ascii_lowercase());
+                    i += 3;
+                } else {
+                    out.push(b[i]);
+                    i += 1;
+                }
+            }
+            out
+        },
+    }
+}
+
+fn sys_inst<T>(ctx: &mut Ctx, inst: &str, case: &Value)
+where
+    T: StShape + Inst,
+    <T as PurlShape>::Error: ErrName + From<<T as FromStr>::Err> + From<purl::ParseError>,
+{
+    let mut b: Option<GenericPurlBuilder<T>> = None;
+    let mut v: Option<GenericPurl<T>> = None;
+    let mut s: Option<String> = None;
+    for st in case["steps"].as_array().cloned().unwrap_or_default() {
+        let step = &st["step"];
+        let name = step[0].as_str().unwrap_or("");
+        let mut err: Option<String> = None;
+        let r = catch_unwind(AssertUnwindSafe(|| match name {
+            "new" => {
+                b = T::from_st(&from_cps(&step[1])).map(|t| GenericPurlBuilder::new(t, from_cps(&step[2])));
+            },
+            "op" => {
+                if let Some(bb) = b.take() {
+                    match apply_op(bb, &step[1]) {
+                        Ok(nb) => b = Some(nb),
+                        Err(e) => err = Some(e.err_name()),
+                    }
+                }
+            },
+            "build" => {
+                if let Some(bb) = b.take() {
+                    match bb.build() {
+                        Ok(p) => v = Some(p),
+                        Err(e) => err = Some(e.err_name()),
+                    }
+                }
+            },
+            "into_builder" => {
+                if let Some(p) = v.take() {
+                    b = Some(p.into_builder());
+                }
+            },
+            "format" => {
+                if let Some(p) = &v {
+                    s = Some(p.to_string());
+                }
+            },
+            "respell" => {
+                if let Some(x) = &s {
+                    s = Some(respell(step[1].as_str().unwrap_or(""), x));
+                }
+            },
+            "parse" => {
+                if let Some(x) = &s {
+                    match GenericPurl::<T>::from_str(x) {
+                        Ok(p) => v = Some(p),
+                        Err(e) => err = Some(e.err_name()),
+                    }
+                }
+            },
+            _ => {},
+        }));
+        let prop = match name {
+            "new" | "op" | "build" => "C09",
+            "into_builder" => "C10",
+            "format" => "C03",
+            "parse" => "C02",
+            _ => "C09",
+        };
+        if r.is_err() {
+            ctx.check("C06", "no panic in a session step", inst, false, &st["after"], &json!({"panic": true}));
+            return;
+        }
+        let obs = json!({
+            "b": slot(b.as_ref().map(builder_json)),
+            "v": slot(v.as_ref().map(value_json)),
+            "s": slot(s.as_ref().map(|x| cps(x))),
+            "err": slot(err.map(|e| json!(e))),
+        });
+        // error classes of failing builder steps are free (C09 demands refusal only)
+        let mut exp = st["after"].clone();
+        let mut got = obs.clone();
+        if name != "parse" && exp["err"]["some"] == json!(true) && got["err"]["some"] == json!(true) {
+            exp["err"] = json!({"some": true});
+            got["err"] = json!({"some": true});
+        }
+        if !ctx.check(prop, "session step leaves the state the specification gives", inst, exp == got, &st["after"], &obs) {
+            return;
+        }
+        if let Some(p) = &v {
+            if name == "build" || name == "parse" {
+                let o = outcome::<T, <T as PurlShape>::Error>(Ok(Ok(p.clone())));
+                universal(ctx, inst, p, &o, &[&st["after"]["v"]["x"]], if name == "parse" { "parse" } else { "build" });
+            }
+        }
+    }
+}
+
+pub fn run_sys(ctx: &mut Ctx, case: &Value) {
+    if case["sh"] == json!("generic") {
+        sys_inst::<String>(ctx, "String", case);
+        #[cfg(feature = "ss")]
+        sys_inst::<purl::SmallString>(ctx, "SmallString", case);
+    } else {
+        #[cfg(feature = "pt")]
+        sys_inst::<purl::PackageType>(ctx, "Purl", case);
+    }
+    if ctx.samples.len() < 2 {
+        ctx.samples.push(json!({"kind": "client session", "case": case}));
+    }
+}
+
 #[derive(Default, Clone)]
 pub struct Opts {
     pub serde: bool,
@@ -1295,6 +1440,7 @@ pub fn run_case(ctx: &mut Ctx, case: &Value, opts: &Opts) {
         "ckop" => run_ckop(ctx, case),
         "shape" => run_shape(ctx, case),
         "pair" => run_pair(ctx, case),
+        "sys" => run_sys(ctx, case),
         #[cfg(feature = "sd")]
         "serde_ns" => run_serde_ns(ctx, case),
         #[cfg(feature = "pt")]
